@@ -167,7 +167,7 @@ func (server *GripServer) addFullGraph(ctx context.Context, graphName string, sc
 			return fmt.Errorf("failed to remove previous schema: %v", err)
 		}
 	}
-	_, err := server.AddGraph(ctx, &gripql.GraphID{Graph: graphName})
+	_, err := server.addGraph(ctx, &gripql.GraphID{Graph: graphName})
 	if err != nil {
 		return fmt.Errorf("error creating graph '%s': %v", graphName, err)
 	}
